@@ -843,15 +843,15 @@ def enc_size_stream(g, n=40, start_id=7000):
     shrink/grow in every order, zero first/last, several blocks after one change; decoded by a piped decoder"""
     ops = []
     rnd = g.rnd
-    pool = [0, 30, 31, 32, 33, 34, 40, 64, 66, 100, 158, 159, 200, 300, 4096, 4097, 8192]
+    pool = [0, 30, 31, 32, 33, 34, 40, 64, 66, 100, 158, 159, 200, 300, 4096, 4097, 8192, 65536, 65537, 100000, 1 << 20]
     cat = [[40, 40], [40, 4096], [4096, 40, 4096], [200, 0, 200], [200, 100, 300, 200], [0], [0, 4096], [100, 0], [0, 100],
            [64, 4096], [4096, 64], [40, 100, 40], [100, 40, 100], [8192], [8192, 4096], [33, 34, 33], [0, 0], [4096], [4096, 4096, 4096],
-           [31], [64, 31, 31], [30, 31, 32], [158, 159], [40, 100, 60], [200, 40, 200],
+           [65537], [100000, 65536], [1 << 20, 70000], [31], [64, 31, 31], [30, 31, 32], [158, 159], [40, 100, 60], [200, 40, 200],
            [0] + list(range(1000, 1200, 10)) + [4096], list(range(4000, 4040)), [100 + (7 * j) % 50 for j in range(30)] + [35]]
     i = start_id
     for seq in cat + [[rnd.choice(pool) for _ in range(rnd.randint(1, 5))] for _ in range(n)]:
         i += 1
-        ops.append('enew %d' % i); ops.append('dnew %d 1000000' % i); ops.append('dallow %d 16384' % i)
+        ops.append('enew %d' % i); ops.append('dnew %d 1000000' % i); ops.append('dallow %d %d' % (i, 1 << 21))
         warm = [(b'a', b'b', False), (b'c', b'd' * 10, False), (b'e', b'f', False)]
         ops.append('eenc %d 0 %s' % (i, ' '.join('%s:%s:%d' % (hx(n), hx(v), int(s)) for n, v, s in warm)))
         ops.append('pipe %d 1 %d' % (i, i))
@@ -1273,13 +1273,14 @@ def dict_dupkey_stream(start_id=19000):
     # pending size change + first block given as list / generator / iterator / tuple / map-like
     for size in (100, 0):
         ids = []
-        for cont in ('list', 'gen', 'iter', 'tuple'):
+        for cont in ('list', 'gen', 'iter', 'tuple', 'dict'):
             i += 1
             ids.append(i)
             ops.append('enew %d' % i)
             ops.append('esize %d %d' % (i, size))
-            ops.append('eapi %d 0 %s 2bb:%s:%s 2bb:%s:%s' % (i, cont, hx(b'first'), hx(b'1'), hx(b'second'), hx(b'2')))
-            ops.append('eapi %d 0 %s 2bb:%s:%s' % (i, cont, hx(b'first'), hx(b'1')))
+            kf = 'Dbb' if cont == 'dict' else '2bb'
+            ops.append('eapi %d 0 %s %s:%s:%s %s:%s:%s' % (i, cont, kf, hx(b'first'), hx(b'1'), kf, hx(b'second'), hx(b'2')))
+            ops.append('eapi %d 0 %s %s:%s:%s' % (i, cont, kf, hx(b'first'), hx(b'1')))
         groups.append(ids)
     return ops, groups
 
@@ -1332,4 +1333,66 @@ def int_memoryview_truncations():
                 ops.append('idec %s %d%s' % (hx(data), N, ann))
             ops.append('idec %s %d #buf=memoryview' % (hx(data + b'\x00'), N))
             ops.append('idec %s %d #buf=memoryview' % (hx(bytes([0xff]) + b'\x80' * k + b'\x00'), N))
+    return ops
+
+
+def dec_churn_stream(g, n=12, start_id=20000):
+    """long decoder connections on SMALL tables with a tiny alphabet: the peer inserts the same field again and
+    again (duplicates are legal), entries are evicted all the time, every live index is referenced"""
+    ops = []
+    rnd = g.rnd
+    for c in range(n):
+        d = start_id + c
+        ops.append('dnew %d 1000000' % d)
+        size = rnd.choice([100, 150, 200, 300])
+        first = True
+        live = 0
+        for b in range(rnd.randint(15, 40)):
+            blk = int_octets(size, 5, 0x20) if first else b''
+            first = False
+            for _ in range(rnd.randint(1, 4)):
+                nm = rnd.choice([b'a', b'bb', b'a', b'c'])
+                v = rnd.choice([b'1', b'22', b'1', b'', b'x' * 20])
+                if rnd.random() < 0.75:
+                    blk += _lit(g, 0x40, nm, v, rnd.random() < 0.3, rnd.random() < 0.3)
+                else:
+                    blk += int_octets(rnd.randint(62, 66), 7, 0x80)
+            ops.append('ddec %d 1 %s' % (d, hx(blk)))
+            if rnd.random() < 0.3:
+                for i in range(62, 68):
+                    ops.append('ddec %d 1 %s' % (d, hx(int_octets(i, 7, 0x80))))
+    return ops
+
+
+def high_index_limit_stream(start_id=21000):
+    """a large entry that sits at an index >= 127 (two-octet index on the wire), referenced after a small field,
+    with list limits around the true size; and plain high-index references on a table larger than the default"""
+    ops = []
+    d = start_id
+    small = b''.join(bytes([0x40, 0x01, 1 + i, 0x00]) for i in range(66))           # 66 entries of 33 octets
+    big = bytes([0x40]) + int_octets(30, 7) + b'N' * 30 + int_octets(1700, 7) + b'V' * 1700      # 1762 octets, inserted FIRST
+    true_one = 32 + 30 + 1700
+    for k, lims in ((1, [true_one + 42, true_one + 41, 100]), (30, [30 * true_one + 42, 30 * true_one + 41, 8000, 1875])):
+        for lim in lims:
+            d += 1
+            ops.append('dnew %d 10000000' % d)
+            ops.append('ddec %d 1 %s' % (d, hx(big + small)))
+            ops.append('dlimit %d %d' % (d, lim))
+            ops.append('ddec %d 1 %s' % (d, hx(b'\x82' + int_octets(128, 7, 0x80) * k)))
+            ops.append('ddec %d 1 %s' % (d, hx(int_octets(128, 7, 0x80) * k)))
+            ops.append('ddec %d 1 %s' % (d, hx(b'\x82' + (int_octets(128, 4, 0x00) + b'\x00') * k)))
+    # table of 16 KiB with 250 live entries: every index up to past the end, on the decoder and on HeaderTable
+    d += 1
+    ops.append('dnew %d 10000000' % d); ops.append('dallow %d 16384' % d); ops.append('tnew %d' % d); ops.append('tmax %d 16384' % d)
+    ops.append('ddec %d 1 %s' % (d, hx(int_octets(16384, 5, 0x20))))
+    blk = b''
+    for i in range(250):
+        nm = b'h%03d' % i
+        blk += bytes([0x40]) + int_octets(len(nm), 7) + nm + b'\x00'
+        ops.append('tadd %d %s -' % (d, hx(nm)))
+    ops.append('ddec %d 1 %s' % (d, hx(blk)))
+    for i in (127, 128, 189, 190, 191, 250, 310, 311, 312, 400):
+        ops.append('ddec %d 1 %s' % (d, hx(int_octets(i, 7, 0x80))))
+        ops.append('dget %d %d' % (d, i)); ops.append('tget %d %d' % (d, i))
+    ops.append('tsearch %d %s -' % (d, hx(b'h000'))); ops.append('tsearch %d %s -' % (d, hx(b'h100')))
     return ops
